@@ -41,8 +41,8 @@ def uop_term(o):
 def unit_term(c):
     items = []
     for o in c["ops"]:
-        dump = clist(["(%d, %d, %d, %d, %s, %d)" % (d[0], d[1], d[2], d[3], cbool(d[4] == 1), d[5])
-                      for d in o["dump"]])
+        dump = "None" if o["dump"] is None else "Some " + clist(
+            ["(%d, %d, %d, %d, %s, %d)" % (d[0], d[1], d[2], d[3], cbool(d[4] == 1), d[5]) for d in o["dump"]])
         items.append("(%s, %s, %s)" % (uop_term(o), cbool(o["res"]), dump))
     return clist(items)
 
@@ -92,6 +92,124 @@ def unit_nontrivial(c):
     return (acc or r_ok) and (rej or r_no) and "purge" in ks
 
 
+# ----------------------------------------------------------------- (b) end to end
+
+ADDR = {"client": 1, "server": 2, "cand1": 3, "cand2": 4, "srv2": 5}
+
+
+def acode(a):
+    return ADDR[a]
+
+
+def hexlist(h):
+    return clist(["%d" % b for b in bytes.fromhex(h)])
+
+
+def kind_term(s):
+    k = s.get("rkind", "")
+    if k == "app":
+        return "KApp"
+    if k == "chal":
+        return "(KChallenge %d)" % s["rcookie"]
+    if k == "resp":
+        return "(KResponse %d)" % s["rcookie"]
+    return "KUnknown"
+
+
+def e2e_term(c):
+    steps = []
+    for s in c["steps"]:
+        if s["op"] == "send":
+            continue
+        rrc = [e for e in s["emits"] if e["type"] in ("chal", "resp")]
+        obs = "(%d, %s, %s)" % (acode(s["raddr"]), clist(
+            ["(%d, %d, %d, %d)" % (0 if e["type"] == "chal" else 1, acode(e["to"]), e["size"], e["cookie"])
+             for e in rrc]), cbool(s["delivered"]))
+        if s["op"] == "tick":
+            st = "STick %d" % s["now"]
+        else:
+            chosen = [e["cookie"] for e in rrc if e["type"] == "chal"]
+            rc = "None" if s["rcid"] is None else "(Some %s)" % hexlist(s["rcid"])
+            st = "SDeliver %d %d %s %d %s %d %d" % (acode(s["from"]), s["seq"], rc, s["bytes"], kind_term(s),
+                                                 chosen[0] if chosen else 0, s["now"])
+        steps.append("(%s, %s)" % (st, obs))
+    return "(%s, %s, %d, %s, %d, %s)" % (cbool(c["neg"]), hexlist(c["local_cid"]), c["wsize"],
+                                         clist(["%d" % x for x in c["pre"]]), acode(c["peer"]), clist(steps))
+
+
+def monitor_e2e(c):
+    """the property's own statements, evaluated on the implementation trace"""
+    if c.get("err"):
+        return "harness: " + c["err"]
+    ra = c["peer"]
+    recv, sent = {}, {}
+    seen_seq = set()
+    max_ok_seq = max(c["pre"]) if c["pre"] else -1
+    chals = []   # (cookie, to, now, trigger_ok)
+    for i, s in enumerate(c["steps"]):
+        before = ra
+        if s["op"] == "deliver" and s["from"] != before:
+            recv[s["from"]] = recv.get(s["from"], 0) + s["bytes"]
+        # carries the endpoint's own ID (none when that ID is empty) and is not a replay
+        own = (s["rcid"] == c["local_cid"]) if s["rcid"] is not None else c["local_cid"] == ""
+        genuine = s["op"] == "deliver" and own and s["seq"] not in seen_seq
+        newest = genuine and s["seq"] > max_ok_seq
+        for e in s["emits"]:
+            # connection ID on everything the endpoint sends
+            if c["peer_cid"]:
+                if e["hdr_ct"] != 25 or e["cid"] != c["peer_cid"]:
+                    return "step %d: emitted record does not carry the peer's connection ID" % i
+            elif e["hdr_ct"] == 25:
+                return "step %d: emitted a tls12_cid record although the peer asked for none" % i
+            if e["type"] in ("chal", "resp"):
+                if not c["neg"]:
+                    return "step %d: RRC record emitted without negotiation" % i
+                if s["op"] != "deliver" or e["to"] != s["from"]:
+                    return "step %d: RRC record to %s not caused by a record from there" % (i, e["to"])
+                if e["type"] == "chal":
+                    if not (newest and s["rcid"] is not None):
+                        return "step %d: challenge started by a record that is not an authentic newest CID record" % i
+                    chals.append((e["cookie"], e["to"], s["now"]))
+            elif e["to"] != before:
+                return "step %d: %s datagram sent to %s while RemoteAddr() is %s" % (i, e["type"], e["to"], before)
+            if e["to"] != before:
+                sent[e["to"]] = sent.get(e["to"], 0) + e["size"]
+                if sent[e["to"]] > 3 * recv.get(e["to"], 0):
+                    return "step %d: %d bytes sent to unvalidated %s after receiving %d from it" % (
+                        i, sent[e["to"]], e["to"], recv.get(e["to"], 0))
+        if s["delivered"]:
+            if not (genuine and s.get("rkind") == "app" and s["read_ok"]):
+                return "step %d: Read returned a payload for a record that must not be accepted" % i
+        if genuine:
+            seen_seq.add(s["seq"])
+            max_ok_seq = max(max_ok_seq, s["seq"])
+        if s["raddr"] != before:
+            if not c["neg"]:
+                return "step %d: RemoteAddr() changed without RRC negotiation" % i
+            ok = (s["op"] == "deliver" and genuine and s.get("rkind") == "resp" and s["from"] == s["raddr"]
+                  and any(ck == s["rcookie"] and to == s["from"] and s["now"] < t + SECOND for ck, to, t in chals))
+            if not ok:
+                return "step %d: RemoteAddr() changed to %s without a timely matching path response" % (i, s["raddr"])
+            chals = []
+        ra = s["raddr"]
+    return None
+
+
+def e2e_nontrivial(c):
+    emitted = any(e["type"] in ("chal", "resp") for s in c["steps"] for e in s["emits"])
+    refused = any(s["op"] == "deliver" and s["from"] != c["peer"] and not s["emits"] for s in c["steps"])
+    return emitted and refused
+
+
+def fill_dumps(c):
+    last = []
+    for o in c["ops"]:
+        if o["dump"] is None:
+            o["dump_same"] = True
+            o["dump"] = last
+        last = o["dump"]
+
+
 def run(chk):
     proved = chk.prove()
     env = {"VERIF_SEED": chk.seed, "VERIF_TIER": chk.tier}
@@ -114,6 +232,9 @@ def run(chk):
             found_input = True
         else:
             chk.broken("correspondence harness TestVerifC15Manager no longer runs against /repo (%s)" % kind, o)
+    unit_terms = [unit_term(c) for c in unit]
+    for c in unit:
+        fill_dumps(c)
     for c in unit:
         m = monitor_unit(c)
         if m:
@@ -125,8 +246,7 @@ def run(chk):
                          "case": c, "rerun": "VERIF_SEED=%d bin/check C15 --tier %s" % (chk.seed, chk.tier)})
             break
     if ok_model and unit:
-        bad, err = vlib.coq_mismatches("c15u", IMPORTS, "unit_case", "unit_ok", [unit_term(c) for c in unit],
-                                       shard=25)
+        bad, err = vlib.coq_mismatches("c15u", IMPORTS, "unit_case", "unit_ok", unit_terms, shard=25)
         if bad is None:
             chk.broken("correspondence evaluation (manager) failed in coqc", err)
         else:
@@ -146,6 +266,107 @@ def run(chk):
                      reserve_ok=sum(1 for c in unit for o in c["ops"] if o["k"] == "reserve" and o["res"]),
                      reserve_denied=sum(1 for c in unit for o in c["ops"] if o["k"] == "reserve" and not o["res"]),
                      saturated=sum(1 for c in unit for o in c["ops"] for d in o["dump"] if d[1] == MAX64))
+
+    # ---------------- (b) end to end
+    out_e = vlib.out_path("c15e")
+    rc, o = vlib.go_test(".", "^TestVerifC15E2E$", dict(env, VERIF_OUT=out_e), timeout=1800, tags=["c15"])
+    e2e = vlib.read_jsonl(out_e)
+    vlib.cleanup(out_e)
+    if rc != 0:
+        kind = vlib.classify_go_failure(o)
+        if kind == "panic":
+            chk.finding("conn.go receive path / connection_id.go", {"monitor": "panic", "test": "TestVerifC15E2E"},
+                        "panic in end-to-end harness", {"output": o[-3000:]})
+            found_input = True
+        else:
+            chk.broken("correspondence harness TestVerifC15E2E no longer runs against /repo (%s)" % kind, o)
+    how_e2e = ("establish (PSK suite `variant`) with ConnectionIDGenerator lengths len_eut/len_peer (-1 = none); the "
+               "peer's writes are captured; each `deliver` step hands pool record `rec` (sequence `seq`, kind "
+               "`rkind`, connection ID `rcid`, `tamper` = sender-side ID altered) to the endpoint under test "
+               "from source address `from` at virtual time `now`; `emits` = what it sent (decoded with the "
+               "peer's keys), `raddr` = RemoteAddr() afterwards")
+    for c in e2e:
+        m = monitor_e2e(c)
+        if m:
+            found_input = True
+            chk.finding("conn.go handleIncomingPacket / connection_id.go / internal/rrc",
+                        {"monitor": m.split(": ", 1)[-1].split(" ")[0:4], "neg": c["neg"]}, m,
+                        {"how": how_e2e, "case": c,
+                         "rerun": "VERIF_SEED=%d bin/check C15 --tier %s" % (chk.seed, chk.tier)})
+            break
+    if ok_model and e2e:
+        usable = [c for c in e2e if not c.get("err")]
+        bad, err = vlib.coq_mismatches("c15e", IMPORTS, "e2e_case", "e2e_ok", [e2e_term(c) for c in usable],
+                                       shard=40)
+        if bad is None:
+            chk.broken("correspondence evaluation (e2e) failed in coqc", err)
+        else:
+            for i in bad[:1]:
+                m = monitor_e2e(usable[i])
+                chk.finding("conn.go handleIncomingPacket / connection_id.go / internal/rrc",
+                            {"monitor": "model-mismatch", "neg": usable[i]["neg"]},
+                            "observations differ from Rrc/C15Conn.v" + (": " + m if m else ""),
+                            {"how": how_e2e, "case": usable[i], "correspondence": "Rrc.C15Run.e2e_ok"},
+                            no_input=(m is None and not found_input))
+        nt = [c for c in usable if e2e_nontrivial(c)]
+        chk.count("e2e", len(e2e), [(c["eut"], c["len_eut"], c["len_peer"], c["variant"],
+                                     tuple((s["op"], s.get("from"), s.get("rkind"), s.get("tamper"), s["seq"], s["now"])
+                                           for s in c["steps"])) for c in nt],
+                  samples=[{"eut": c["eut"], "lens": [c["len_eut"], c["len_peer"]], "script": c["script"],
+                            "raddr": [s["raddr"] for s in c["steps"]][-8:]} for c in nt[-2:]])
+        chk.cov["traces_validated_against_impl"] += len(e2e)
+        changes = 0
+        for c in e2e:
+            ra = c["peer"]
+            for s in c["steps"]:
+                if s["raddr"] != ra:
+                    changes += 1
+                ra = s["raddr"]
+        chk.leg_info("e2e", steps=sum(len(c["steps"]) for c in e2e), address_changes=changes,
+                     challenges=sum(1 for c in e2e for s in c["steps"] for e in s["emits"] if e["type"] == "chal"),
+                     responses_sent=sum(1 for c in e2e for s in c["steps"] for e in s["emits"] if e["type"] == "resp"),
+                     responses_delivered=sum(1 for c in e2e for s in c["steps"] if s.get("rkind") == "resp"),
+                     tampered_cid_delivered=sum(1 for c in e2e for s in c["steps"] if s.get("tamper")),
+                     cid_length_pairs=sorted({(c["len_eut"], c["len_peer"]) for c in e2e}),
+                     not_negotiated=sum(1 for c in e2e if not c["neg"]))
+
+    # ---------------- (c) router
+    out_r = vlib.out_path("c15r")
+    rc, o = vlib.go_test(".", "^TestVerifC15Router$", dict(env, VERIF_OUT=out_r), tags=["c15"])
+    rt = vlib.read_jsonl(out_r)
+    vlib.cleanup(out_r)
+    if rc != 0:
+        kind = vlib.classify_go_failure(o)
+        if kind == "panic":
+            chk.finding("connection_id.go cidDatagramRouter", {"monitor": "panic", "test": "TestVerifC15Router"},
+                        "panic in cidDatagramRouter", {"output": o[-3000:]})
+            found_input = True
+        else:
+            chk.broken("correspondence harness TestVerifC15Router no longer runs against /repo (%s)" % kind, o)
+    for c in rt:
+        if not c["same"]:
+            found_input = True
+            chk.finding("connection_id.go cidDatagramRouter", {"monitor": "not-a-function-of-bytes"},
+                        "router returned different results for equal datagram bytes", {"case": c})
+            break
+    if ok_model and rt:
+        def rterm(c):
+            d = "DBad" if c["bad"] else "(DRecs %s)" % clist(
+                ["(mkRec %d %s %s)" % (r["ct"], cbool(r["verok"]), hexlist(r["cid"])) for r in c["recs"]])
+            obs = ("(Some %s)" % hexlist(c["id"])) if c["found"] else "None"
+            return "(%s, %s)" % (d, obs)
+        bad, err = vlib.coq_mismatches("c15r", IMPORTS, "router_case", "router_ok", [rterm(c) for c in rt], shard=300)
+        if bad is None:
+            chk.broken("correspondence evaluation (router) failed in coqc", err)
+        else:
+            for i in bad[:1]:
+                chk.finding("connection_id.go cidDatagramRouter", {"monitor": "model-mismatch"},
+                            "cidDatagramRouter result differs from Rrc/C15Router.v",
+                            {"case": rt[i], "correspondence": "Rrc.C15Run.router_ok"}, no_input=not found_input)
+        nt = [c for c in rt if c["found"] and any(r["ct"] != 25 or not r["verok"] for r in c["recs"])]
+        chk.count("router", len(rt), [(c["size"], c["bad"], tuple((r["ct"], r["verok"], r["cid"]) for r in c["recs"]))
+                                      for c in nt], samples=nt[-2:])
+        chk.leg_info("router", found=sum(1 for c in rt if c["found"]), unsplittable=sum(1 for c in rt if c["bad"]))
 
     if not proved:
         where, out = getattr(chk, "proof_error", ("?", ""))
